@@ -677,7 +677,7 @@ pub fn random_trace(seed: u64, ctx: &Arc<ExecCtx>, reachable: &BTreeMap<String, 
                 t.injections.push(Injection {
                     session: 0,
                     step,
-                    sub: rng.below(4),
+                    sub: rng.range(4, 10),
                     nth: rng.range(1, 6),
                     kind: rng.pick(&[InjectKind::ReadEio, InjectKind::ReadEacces, InjectKind::ReadNotFound]).clone(),
                     sticky: rng.chance(0.5),
